@@ -1,6 +1,9 @@
 package chainsim
 
 import (
+	"encoding/binary"
+
+	"github.com/dominant-strategies/go-quai/crypto/multiset"
 	"github.com/dominant-strategies/go-quai/ethdb"
 	"bytes"
 	"sort"
@@ -73,6 +76,10 @@ func Prologue(variant int) []Op {
 	for i := 0; i < 13; i++ {
 		p = append(p, Op{OpMine, []int{0, 2, 1}[i%3], 0, i, 1})
 	}
+	if variant >= 2 {
+		// variant 2: additionally fan one output out into many and create trimmable dust, then bury both a little
+		p = append(p, Op{OpQiSpend, 0, 0, 2, 5}, Op{OpQiSpend, 1, 0, 3, 3}, Op{OpMine, 2, 0, 1, 2}, Op{OpMine, 2, 0, 2, 2}, Op{OpQiSpend, 3, 0, 3, 4}, Op{OpMine, 1, 0, 3, 2})
+	}
 	return p
 }
 
@@ -130,7 +137,7 @@ type chainCase struct {
 
 func drawCase(rt *rapid.T) chainCase {
 	c := chainCase{}
-	c.Prologue = rapid.SampledFrom([]int{0, 1, 1, 1}).Draw(rt, "prologue")
+	c.Prologue = rapid.SampledFrom([]int{0, 1, 1, 2, 2}).Draw(rt, "prologue")
 	c.Tape = DrawTape(rt, 6, 10)
 	c.Cfg = DefaultNodeConfig("n0")
 	c.Cfg.IndexAddressUtxos = rapid.Bool().Draw(rt, "indexAddressUtxos")
@@ -246,12 +253,34 @@ func checkCommitments(n *Node, bi *BlockInfo, reorg bool, fail func(class, witne
 	if reorg {
 		what = "after=reorg"
 	}
-	if root != hdr.UTXORoot() {
-		fail("root-equals-scan", what+" utxo-root", fmt.Sprintf("block #%d %x: header UTXORoot %x, multiset of stored ut+cl records %x (%d records, stored size %d)", bi.Number, bi.Hash[:6], hdr.UTXORoot(), root, count, size))
-		return
-	}
-	if count != size {
-		fail("root-equals-scan", what+" set-size", fmt.Sprintf("block #%d: stored UTXO set size %d, records in db %d", bi.Number, size, count))
+	if root != hdr.UTXORoot() || count != size {
+		// Attribute the discrepancy if it is exactly what one known mechanism produces: an output that this block
+		// both spends and trims (TrimBlock reads the database, not the block's batch) is removed from the
+		// multiset and subtracted from the size twice.
+		cause := ""
+		db := n.DBs[common.ZONE_CTX]
+		spent, _ := rawdb.ReadSpentUTXOs(db, bi.Hash)
+		trimmed, _ := rawdb.ReadTrimmedUTXOs(db, bi.Hash)
+		isSpent := map[string]bool{}
+		for _, sp := range spent {
+			isSpent[fmt.Sprintf("%x:%d", sp.TxHash, sp.Index)] = true
+		}
+		adj := recomputeMultiset(n)
+		both := 0
+		for _, tr := range trimmed {
+			if isSpent[fmt.Sprintf("%x:%d", tr.TxHash, tr.Index)] {
+				adj.Remove(types.UTXOHash(tr.TxHash, tr.Index, tr.UtxoEntry).Bytes())
+				both++
+			}
+		}
+		if both > 0 && adj.Hash() == hdr.UTXORoot() && count == size+uint64(both) {
+			cause = " cause=output-spent-and-trimmed-in-same-block"
+		}
+		if root != hdr.UTXORoot() {
+			fail("root-equals-scan", what+" utxo-root"+cause, fmt.Sprintf("block #%d %x: header UTXORoot %x, multiset of stored ut+cl records %x (%d records, stored size %d; %d outputs both spent and trimmed by this block)", bi.Number, bi.Hash[:6], hdr.UTXORoot(), root, count, size, both))
+		} else {
+			fail("root-equals-scan", what+" set-size"+cause, fmt.Sprintf("block #%d: stored UTXO set size %d, records in db %d", bi.Number, size, count))
+		}
 		return
 	}
 	if _, err := n.Zone().StateAt(hdr.EVMRoot(), hdr.EtxSetRoot(), hdr.QuaiStateSize()); err != nil {
@@ -260,6 +289,9 @@ func checkCommitments(n *Node, bi *BlockInfo, reorg bool, fail func(class, witne
 	}
 	if count > 0 {
 		simkit.Global.Inc("probe.nonempty_utxo_set_checked")
+	}
+	if tr, err := rawdb.ReadTrimmedUTXOs(n.DBs[common.ZONE_CTX], bi.Hash); err == nil && len(tr) > 0 {
+		simkit.Global.Inc("probe.block_trimmed_utxos")
 	}
 	simkit.Global.Inc("heads_checked")
 }
@@ -548,9 +580,21 @@ func checkEtxHistory(w *World, n *Node, tip common.Hash, fail func(class, witnes
 			}
 			delivered[k] = true
 			o := e.tx
-			same := o.EtxType() == tx.EtxType() && o.To() != nil && tx.To() != nil && o.To().Equal(*tx.To()) && o.ETXSender().Equal(tx.ETXSender()) && bytes.Equal(o.Data(), tx.Data())
-			if same && !types.IsConversionTx(o) {
-				same = o.Value().Cmp(tx.Value()) == 0 && o.Hash() == tx.Hash() && o.Gas() == tx.Gas()
+			same := o.To() != nil && tx.To() != nil && o.To().Equal(*tx.To()) && o.ETXSender().Equal(tx.ETXSender()) && bytes.Equal(o.Data(), tx.Data())
+			if types.IsConversionTx(o) {
+				// protocol conversion repricing: the prime chain either reprices the value or, when the sender's slippage
+				// bound is exceeded, turns the ETX into a refund (ConversionRevert) of exactly the original value
+				switch tx.EtxType() {
+				case types.ConversionType:
+					simkit.Global.Inc("probe.conversion_repriced")
+				case types.ConversionRevertType:
+					same = same && o.Value().Cmp(tx.Value()) == 0
+					simkit.Global.Inc("probe.conversion_reverted")
+				default:
+					same = false
+				}
+			} else {
+				same = same && o.EtxType() == tx.EtxType() && o.Value().Cmp(tx.Value()) == 0 && o.Hash() == tx.Hash() && o.Gas() == tx.Gas()
 			}
 			if !same {
 				fail("etx-altered", "type="+fmt.Sprint(o.EtxType()), fmt.Sprintf("ETX (origin %x index %d) emitted at #%d as {type %d to %x value %v gas %d} was delivered with #%d as {type %d to %x value %v gas %d}", k.origin[:6], k.index, e.block, o.EtxType(), o.To().Bytes()[:4], o.Value(), o.Gas(), bi.Number, tx.EtxType(), tx.To().Bytes()[:4], tx.Value(), tx.Gas()))
@@ -672,4 +716,29 @@ func scratchBase() string {
 		return "/dev/shm"
 	}
 	return os.TempDir()
+}
+
+func recomputeMultiset(n *Node) *multiset.MultiSet {
+	ms := multiset.New()
+	db := n.DBs[common.ZONE_CTX]
+	for _, u := range ScanUtxos(db) {
+		ms.Add(types.UTXOHash(u.Hash, u.Index, u.Entry).Bytes())
+	}
+	keys, vals := ScanPrefix(db, rawdb.CoinbaseLockupPrefix)
+	for i, k := range keys {
+		if len(k) != rawdb.CoinbaseLockupKeyLength || len(vals[i]) < 38 {
+			continue
+		}
+		owner, miner, lockupByte, epoch, err := rawdb.ReverseCoinbaseLockupKey([]byte(k), LocZone)
+		if err != nil {
+			continue
+		}
+		data := vals[i]
+		delegate := common.Zero
+		if len(data) == 58 {
+			delegate = common.BytesToAddress(data[38:], LocZone)
+		}
+		ms.Add(types.CoinbaseLockupHash(owner, miner, delegate, lockupByte, epoch, new(big.Int).SetBytes(data[:32]), binary.BigEndian.Uint32(data[32:36]), binary.BigEndian.Uint16(data[36:38])).Bytes())
+	}
+	return ms
 }
